@@ -7,6 +7,7 @@
   stores satisfying the invariant and arbitrary calls, successful or failing; hence for every reachable state.
 -/
 import PonyVerif.Lemmas.RelStep
+import PonyVerif.Lemmas.RelLiveStep
 namespace PonyVerif.Props.C12
 open PonyVerif.Model.Rel
 
@@ -84,6 +85,69 @@ theorem C12_many_to_many (sch : Schema) (ops : List Op) (p q : ObjId) (c : Attr)
   rwa [hasB_coll_eq hc hcd, hasB_coll_eq hr hrd] at this
 
 
+/-! ### no live object references a deleted object -/
+
+/-- the guard holds for every call of the history (at the state in which it is made) -/
+def AllOK (sch : Schema) : Store → List Op → Prop
+  | _, [] => True
+  | s, op :: ops => StepOK sch s op ∧ AllOK sch (step sch s op) ops
+
+instance (sch : Schema) (s : Store) (op : Op) : Decidable (StepOK sch s op) := by
+  unfold StepOK; infer_instance
+
+instance decAllOK (sch : Schema) : (s : Store) → (ops : List Op) → Decidable (AllOK sch s ops)
+  | _, [] => isTrue trivial
+  | s, op :: ops => by
+    unfold AllOK
+    exact @instDecidableAnd _ _ _ (decAllOK sch (step sch s op) ops)
+
+/-- if every deleted object is clean (nobody live still points at it), no live object references a deleted object -/
+theorem C12_live_of_clean (sch : Schema) (s : Store) (hI : Inv sch s) (hC : DeadClean sch s) : Live sch s :=
+  live_of_clean hI.range hI.agree hC
+
+/-- EVERY removing call (delete with cascade of any depth, remove, clear), successful or failing, keeps the deleted objects
+    clean; so does every other call that deletes nothing and whose target and values are alive afterwards (`StepOK`) -/
+theorem C12_clean_step (sch : Schema) (s : Store) (op : Op) (hI : Inv sch s) (hC : DeadClean sch s) (hok : StepOK sch s op) :
+    DeadClean sch (step sch s op) :=
+  clean_step sch s op hI hC hok
+
+/-- after `obj.delete()` (any schema, any cascade) no live object references a deleted object, if none did before -/
+theorem C12_delete_no_dangling (sch : Schema) (s : Store) (o : ObjId) (hI : Inv sch s) (hC : DeadClean sch s) :
+    Live sch (step sch s (.delete o)) :=
+  C12_live_of_clean sch _ (C12_step sch s _ hI) (C12_clean_step sch s _ hI hC (Or.inl rfl))
+
+/-- in every state reached by a history all of whose calls satisfy the guard, no live object references a deleted object -/
+theorem C12_no_dangling_reachable (sch : Schema) (ops : List Op) (h : AllOK sch Store.empty ops) :
+    Live sch (run sch Store.empty ops) := by
+  have g : ∀ (ops : List Op) (s : Store), Inv sch s → DeadClean sch s → AllOK sch s ops → Live sch (run sch s ops) := by
+    intro ops
+    induction ops with
+    | nil => intro s hI hC _; exact C12_live_of_clean sch s hI hC
+    | cons op ops ih =>
+      intro s hI hC hok
+      exact ih (step sch s op) (C12_step sch s op hI) (C12_clean_step sch s op hI hC hok.1) hok.2
+  exact g ops _ (C12_init sch) (fun o ho => absurd ho (Nat.not_lt_zero _)) h
+
+/-- the UNGUARDED statement (values alive when passed) is false of the mirrored code: assigning a one-to-many collection
+    whose cascade deletes an item that was to stay puts the deleted item back (witness below; replayed on the real code) -/
+def C12_no_dangling_full : Prop := ∀ (sch : Schema) (ops : List Op), Live sch (run sch Store.empty ops)
+
+/-- `A.bs = Set(B, cascade_delete=True)` ↔ `B.a = Optional(A)`;  `B.kids = Set(B, cascade_delete=True)` ↔ `B.parent = Optional(B)` -/
+def witSchema : Schema :=
+  [ { a := ⟨0, true, false, true⟩, b := ⟨1, false, false, false⟩, sym := false },
+    { a := ⟨1, true, false, true⟩, b := ⟨1, false, false, false⟩, sym := false } ]
+
+/-- `a = A(); b1 = B(a=a); b2 = B(a=a, parent=b1); a.bs = [b2]` -/
+def witOps : List Op :=
+  [ .create 0 [], .create 1 [(⟨0, true⟩, .ref (some 0))], .create 1 [(⟨0, true⟩, .ref (some 0)), (⟨1, true⟩, .ref (some 1))],
+    .setColl 0 ⟨0, false⟩ [2] ]
+
+theorem C12_no_dangling_full_false : ¬ C12_no_dangling_full := by
+  intro h
+  have := h witSchema witOps 0 ⟨0, false⟩ 2 (by decide) (by decide) (by decide) (by decide)
+  revert this
+  decide
+
 /-! ### the statements are not vacuous -/
 
 /-- `A.bs = Set(B)` (cascade, because `B.a` is Required) ↔ `B.a = Required(A)`;  `A.cs = Set(C)` ↔ `C.as = Set(A)`;
@@ -119,6 +183,11 @@ example : (run exSchema Store.empty [.create 0 [], .create 1 [(⟨0, true⟩, .r
       .setRef 0 ⟨2, false⟩ (some 1), .setRef 0 ⟨2, false⟩ (some 2)]).ref 0 ⟨2, false⟩ = some 2 ∧
     (run exSchema Store.empty [.create 0 [], .create 0 [], .setRef 0 ⟨3, false⟩ (some 0), .setRef 0 ⟨3, false⟩ (some 1)]).ref 0 ⟨3, false⟩ = some 1 ∧
     (run exSchema Store.empty [.create 0 [], .create 0 [], .setRef 0 ⟨3, false⟩ (some 0), .setRef 0 ⟨3, false⟩ (some 1)]).ref 1 ⟨3, false⟩ = some 0 := by
+  decide
+
+
+/-- the guard of the no-dangling theorem is satisfiable by a history with creation, linking, a cascade delete and a remove -/
+example : AllOK exSchema Store.empty (exOps ++ [.remove 0 ⟨1, false⟩ [2], .delete 0]) := by
   decide
 
 end PonyVerif.Props.C12
